@@ -152,7 +152,7 @@ __CPROVER_ensures(g_lv.int_live == (g_lv_link.levelCorrection != NULL ? 1 : 0) &
 __CPROVER_ensures(g_lv_chain_live == 0)
 /* frame: the signature object, its chain list and the first chain object are NOT written - only the first link */
 C11D_REC_LEVEL_ENS
-__CPROVER_assigns(g_lv, g_lv_chain_live, g_lv_link, g_lv_oldint, g_lv_el C11D_REC_LEVEL_ASG);
+__CPROVER_assigns(g_lv, g_lv_chain_live, g_lv_link, g_lv_oldint, g_lv_el, g_lv_cmp C11D_REC_LEVEL_ASG);
 #pragma CPROVER check pop
 #endif
 
@@ -203,7 +203,7 @@ __CPROVER_ensures(IMPLIES(BA_ARGS && g_bd.aggregate_res == KSI_OK && (g_rc_lv.ca
 		g_rc_ap.level_calls_before == g_rc_lv.calls && __CPROVER_return_value == g_rc_ap.res))
 __CPROVER_ensures(IFF(__CPROVER_return_value == KSI_OK, BA_ARGS && g_bd.aggregate_res == KSI_OK && (g_rc_lv.calls == 0 || g_rc_lv.res == KSI_OK) && g_rc_ap.calls == 1 && g_rc_ap.res == KSI_OK))
 C11D_REC_BAPPEND_ENS
-__CPROVER_assigns(g_bd, g_rc_lv, g_rc_ap, g_d, g_dl, g_d_aggr, g_d_el, g_d_shape, g_lv, g_lv_chain_live, g_lv_link, g_lv_oldint, g_lv_el C11D_REC_BAPPEND_ASG);
+__CPROVER_assigns(g_bd, g_rc_lv, g_rc_ap, g_d, g_dl, g_d_aggr, g_d_el, g_d_shape, g_lv, g_lv_chain_live, g_lv_link, g_lv_oldint, g_lv_el, g_lv_cmp C11D_REC_BAPPEND_ASG);
 #pragma CPROVER check pop
 #endif
 
@@ -264,6 +264,6 @@ __CPROVER_ensures(IMPLIES(g_rc_ba.calls == 1 && g_rc_ba.res != KSI_OK, __CPROVER
 __CPROVER_ensures(IMPLIES(g_cl.close_calls == 1 && g_cl.close_res != KSI_OK, __CPROVER_return_value == g_cl.close_res))
 __CPROVER_ensures(IMPLIES(CR_ARGS && g_cn.clone_calls == 1 && g_cn.clone_res == KSI_OK, g_rc_ba.calls == 1))
 __CPROVER_ensures(IMPLIES(g_rc_ba.calls == 1 && g_rc_ba.res == KSI_OK, g_cl.close_calls == 1))
-__CPROVER_assigns(*sig, g_cn, g_cl, g_rc_ba, g_bd, g_rc_lv, g_rc_ap, g_d, g_dl, g_d_aggr, g_d_el, g_d_shape, g_lv, g_lv_chain_live, g_lv_link, g_lv_oldint, g_lv_el, g_d_sig);
+__CPROVER_assigns(*sig, g_cn, g_cl, g_rc_ba, g_bd, g_rc_lv, g_rc_ap, g_d, g_dl, g_d_aggr, g_d_el, g_d_shape, g_lv, g_lv_chain_live, g_lv_link, g_lv_oldint, g_lv_el, g_lv_cmp, g_d_sig);
 #pragma CPROVER check pop
 #endif
